@@ -163,15 +163,21 @@ Definition byte_from (f : Z -> bool) : Z :=
   Z.b2z (f 0) + 2 * Z.b2z (f 1) + 4 * Z.b2z (f 2) + 8 * Z.b2z (f 3) + 16 * Z.b2z (f 4) + 32 * Z.b2z (f 5)
   + 64 * Z.b2z (f 6) + 128 * Z.b2z (f 7).
 
-Definition zseq (n : nat) : list Z := map Z.of_nat (seq 0 n).
-
 (* the data section with the bit range [lo, lo+len) replaced by the low bits of raw and every
-   other bit kept *)
-Definition set_bits (d : list Z) (lo len raw : Z) : list Z :=
-  map (fun k => byte_from (fun j =>
-         let i := 8 * k + j in
-         if (lo <=? i) && (i <? lo + len) then Z.testbit raw (i - lo) else data_bit d i))
-      (zseq (length d)).
+   other bit kept (k: index of the current byte; bytes wholly outside the range are kept as they
+   are, which also keeps the extracted model linear on 512 KiB structs) *)
+Fixpoint set_bits_go (k : Z) (d : list Z) (lo len raw : Z) : list Z :=
+  match d with
+  | [] => []
+  | b :: r =>
+    (if (8 * k + 8 <=? lo) || (lo + len <=? 8 * k) then b
+     else byte_from (fun j =>
+            let i := 8 * k + j in
+            if (lo <=? i) && (i <? lo + len) then Z.testbit raw (i - lo) else Z.testbit b j))
+    :: set_bits_go (k + 1) r lo len raw
+  end.
+
+Definition set_bits (d : list Z) (lo len raw : Z) : list Z := set_bits_go 0 d lo len raw.
 
 Definition bits_in (d : list Z) (lo len : Z) : bool :=
   (0 <=? lo) && (lo + len <=? 8 * Z.of_nat (length d)).
@@ -421,6 +427,9 @@ Record node_ir := mkNI {
 
 (* generator.ObjectSize: int(DataWordCount())*8, PointerCount() *)
 Definition gen_objsize (n : node_desc) : Z * Z := (nd_dwc n * 8, nd_pc n).
+(* variant: the product computed in uint16 (DataWordCount()*8 without the int() widening);
+   it wraps from 8192 words on -- Examples.objsize_u16_refuted *)
+Definition gen_objsize_u16 (n : node_desc) : Z * Z := ((nd_dwc n * 8) mod 2 ^ 16, nd_pc n).
 
 Definition gen_node (n : node_desc) : node_ir :=
   let sz := if nd_isgroup n then None else Some (gen_objsize n) in
